@@ -505,7 +505,7 @@ for _p, _rel, _q in [
     RN(_p, _rel, _q)
 
 # ------------------------------------------------------------------------------- whole-tree reformat (must be silent for every property)
-for _i in [1, 2, 3, 4, 5, 6, 7, 8, 10, 11, 12, 13, 14, 15, 16, 17, 18, 19, 20]:
+for _i in [1, 2, 3, 4, 5, 6, 7, 8, 9, 10, 11, 12, 13, 14, 15, 16, 17, 18, 19, 20]:
     VARIANTS.append(dict(id="fmt-c%02d" % _i, prop="C%02d" % _i, expect="silent", edits=[("@unparse_all",)], rule=None,
                          what="every source file re-emitted by ast.unparse: comments, layout and line numbers change, nothing else"))
 
@@ -644,7 +644,7 @@ V("c10-silent-rule1-keywords", "C10", "silent", UT, "    if len(pa(i, A)) > 0 an
 V("c08-silent-step-pa-keywords", "C08", "silent", UT, "            z_exists = len(pa(y, labelled) - {x} - pa(x, labelled)) > 0\n", "            z_exists = len(pa(A=labelled, i=y) - {x} - pa(i=x, A=labelled)) > 0\n", what="keyword spelling of pa")
 
 # ------------------------------------------------------------------------------- whole-tree behaviour-preserving transformations (silent for every property)
-for _i in [1, 2, 3, 4, 5, 6, 7, 8, 10, 11, 12, 13, 14, 15, 16, 17, 18, 19, 20]:
+for _i in [1, 2, 3, 4, 5, 6, 7, 8, 9, 10, 11, 12, 13, 14, 15, 16, 17, 18, 19, 20]:
     for _t, _w in (("@kwargs_calls", "calls to the repository's own functions re-spelled with keyword arguments in reversed order"),
                    ("@strip_docs_annotate", "docstrings removed, parameters and returns annotated"),
                    ("@logging", "a module logger and a debug call at the start of every function"),
@@ -903,7 +903,7 @@ class _Registry(dict):
 def _unused_static():
     return None
 '''
-for _i in [1, 2, 3, 4, 5, 6, 7, 8, 10, 11, 12, 13, 14, 15, 16, 17, 18, 19, 20]:
+for _i in [1, 2, 3, 4, 5, 6, 7, 8, 9, 10, 11, 12, 13, 14, 15, 16, 17, 18, 19, 20]:
     VARIANTS.append(dict(id="unrelated-code-c%02d" % _i, prop="C%02d" % _i, expect="silent", rule=None,
                          edits=[(UT, "\ndef sorted_tuple(iterable):", NEW_CODE + "\n\ndef sorted_tuple(iterable):")],
                          what="an unrelated private helper (global, yield, eval, with, a dict subclass) is added to utils.py and never called"))
@@ -929,7 +929,7 @@ def to_networkx(A):
 def describe(A):
     return "graph with %d nodes and %d edges" % (len(A), int((A != 0).sum()))
 '''
-for _i in [1, 2, 3, 4, 5, 6, 7, 8, 10, 11, 12, 13, 14, 15, 16, 17, 18, 19, 20]:
+for _i in [1, 2, 3, 4, 5, 6, 7, 8, 9, 10, 11, 12, 13, 14, 15, 16, 17, 18, 19, 20]:
     VARIANTS.append(dict(id="unrelated-public-c%02d" % _i, prop="C%02d" % _i, expect="silent", rule=None,
                          edits=[(UT, "\ndef sorted_tuple(iterable):", NEW_PUBLIC + "\n\ndef sorted_tuple(iterable):")],
                          what="unrelated public helpers (file output, networkx conversion, a description string) are added to utils.py"))
@@ -966,7 +966,7 @@ def skeleton_f1(A, B, *, eps=1e-12):
         case _:
             return 0.0
 '''
-for _i in [1, 2, 3, 4, 5, 6, 7, 8, 10, 11, 12, 13, 14, 15, 16, 17, 18, 19, 20]:
+for _i in [1, 2, 3, 4, 5, 6, 7, 8, 9, 10, 11, 12, 13, 14, 15, 16, 17, 18, 19, 20]:
     VARIANTS.append(dict(id="unrelated-module-c%02d" % _i, prop="C%02d" % _i, expect="silent", rule=None,
                          edits=[("@newfile", "sempler/metrics.py", NEW_MODULE)],
                          what="a new unrelated module sempler/metrics.py (dataclass, walrus, match, keyword-only args)"))
@@ -1107,7 +1107,7 @@ V("sp5-c06-mse-local", "C06", "silent", ND, "        cov = self.covariance\n", "
 V("sp5-c05-marginal-ix", "C05", "silent", ND, "        covariance = utils.matrix_block(self.covariance, X, X)\n        return NormalDistribution(mean, covariance)\n", "        covariance = self.covariance[np.ix_(X, X)]\n        return NormalDistribution(mean, covariance)\n", what="np.ix_ block")
 
 # ------------------------------------------------------------------------------- several whole-tree transformations at once (silent for every property)
-for _i in [1, 2, 3, 4, 5, 6, 7, 8, 10, 11, 12, 13, 14, 15, 16, 17, 18, 19, 20]:
+for _i in [1, 2, 3, 4, 5, 6, 7, 8, 9, 10, 11, 12, 13, 14, 15, 16, 17, 18, 19, 20]:
     VARIANTS.append(dict(id="combined-transforms-c%02d" % _i, prop="C%02d" % _i, expect="silent", rule=None,
                          edits=[("@kwargs_calls",), ("@early_exit",), ("@accept_lists",), ("@numpy_alias",), ("@strip_docs_annotate",), ("@logging",)],
                          what="keyword calls + early exits + `import numpy` + annotations + logging + list-accepting prologues, all at once"))
@@ -1192,7 +1192,7 @@ V("r5-c12-undecided-pool-pop-from-front", "C12", "undecided", GE, _POOL, "      
   what="disjoint prefixes of one draw without replacement: correct, but a different algorithm than the rules read")
 
 # ------------------------------------------------------------------------------- decorators (silent for every property when transparent)
-for _i in [1, 2, 3, 4, 5, 6, 7, 8, 10, 11, 12, 13, 14, 15, 16, 17, 18, 19, 20]:
+for _i in [1, 2, 3, 4, 5, 6, 7, 8, 9, 10, 11, 12, 13, 14, 15, 16, 17, 18, 19, 20]:
     VARIANTS.append(dict(id="traced-decorator-c%02d" % _i, prop="C%02d" % _i, expect="silent", rule=None, edits=[("@traced",)],
                          what="every function and method behind a transparent logging decorator (*args, **kwargs forwarded verbatim)"))
     VARIANTS.append(dict(id="shim-decorator-c%02d" % _i, prop="C%02d" % _i, expect="silent", rule=None, edits=[("@shim",)],
@@ -1244,7 +1244,7 @@ V("dec-c20-defaults-dict-updated-in-place", "C20", "fire", NO, "import numpy as 
 V("dec-c20-silent-defaults-dict-copied", "C20", "silent", NO, "import numpy as np\n", _DESCR % "dict(defaults)", more=_NO_FACT,
   what="the defaults are copied before the call's arguments are merged in")
 
-for _i in [1, 2, 3, 4, 5, 6, 7, 8, 10, 11, 12, 13, 14, 15, 16, 17, 18, 19, 20]:
+for _i in [1, 2, 3, 4, 5, 6, 7, 8, 9, 10, 11, 12, 13, 14, 15, 16, 17, 18, 19, 20]:
     VARIANTS.append(dict(id="kwonly-signatures-c%02d" % _i, prop="C%02d" % _i, expect="silent", rule=None, edits=[("@kwonly",)],
                          what="every defaulted parameter made keyword-only (def f(a, *, b=1)), call sites re-spelled with keywords"))
 V("dyn-c01-class-decorator", "C01", "fire", LG, "class LGANM:", "def _registered(cls):\n    cls.sample = cls.sample\n    return cls\n\n\n@_registered\nclass LGANM:",
@@ -1308,15 +1308,15 @@ V("trap-c12-is-literal", "C12", "fire", GE, "    if isinstance(size, tuple) and 
 V("trap-c05-max-of-two", "C05", "fire", ND, "        cov_x = utils.matrix_block(self.covariance, X, X)\n", "        cov_x = utils.matrix_block(self.covariance, X, X)\n        _scale = np.max(np.abs(cov_x), np.abs(cov_x).T)\n", rule="TRAP.max-of-two",
   what="np.max with two arrays (the second one is taken as the axis)", accept_inconclusive=True)
 
-for _i in [1, 2, 3, 4, 5, 6, 7, 8, 10, 11, 12, 13, 14, 15, 16, 17, 18, 19, 20]:
+for _i in [1, 2, 3, 4, 5, 6, 7, 8, 9, 10, 11, 12, 13, 14, 15, 16, 17, 18, 19, 20]:
     VARIANTS.append(dict(id="extra-param-c%02d" % _i, prop="C%02d" % _i, expect="silent", rule=None, edits=[("@extra_param",)],
                          what="every function gets a trailing `_verbose=False` parameter guarding a logger call"))
 
-for _i in [1, 2, 3, 4, 5, 6, 7, 8, 10, 11, 12, 13, 14, 15, 16, 17, 18, 19, 20]:
+for _i in [1, 2, 3, 4, 5, 6, 7, 8, 9, 10, 11, 12, 13, 14, 15, 16, 17, 18, 19, 20]:
     VARIANTS.append(dict(id="try-reraise-c%02d" % _i, prop="C%02d" % _i, expect="silent", rule=None, edits=[("@try_reraise",)],
                          what="every function body wrapped in try / except Exception: log; raise"))
 
-for _i in [1, 2, 3, 4, 5, 6, 7, 8, 10, 11, 12, 13, 14, 15, 16, 17, 18, 19, 20]:
+for _i in [1, 2, 3, 4, 5, 6, 7, 8, 9, 10, 11, 12, 13, 14, 15, 16, 17, 18, 19, 20]:
     VARIANTS.append(dict(id="np-functions-c%02d" % _i, prop="C%02d" % _i, expect="silent", rule=None, edits=[("@np_functions",)],
                          what="array methods spelled as numpy functions (x.sum(axis=0) -> np.sum(x, axis=0), x.T -> np.transpose(x), ...)"))
 _LG_INV = "        A = np.linalg.inv(np.eye(self.p) - W.T)\n"
@@ -1487,11 +1487,11 @@ V("rf-c17-manual-counter", "C17", "silent", UT, "        for i, ratio in enumera
 V("rf-c17-manual-counter-after", "C17", "silent", UT, "        start = 0\n        for i, ratio in enumerate(ratios):\n", "        start = 0\n        i = 0\n        for ratio in ratios:\n",
   more=[(UT, "            folds[i].append(fold_sample)\n", "            folds[i].append(fold_sample)\n            i += 1\n")], what="index kept by hand, incremented at the end of the body")
 
-for _i in [1, 2, 3, 4, 5, 6, 7, 8, 10, 11, 12, 13, 14, 15, 16, 17, 18, 19, 20]:
+for _i in [1, 2, 3, 4, 5, 6, 7, 8, 9, 10, 11, 12, 13, 14, 15, 16, 17, 18, 19, 20]:
     VARIANTS.append(dict(id="np-operators-c%02d" % _i, prop="C%02d" % _i, expect="silent", rule=None, edits=[("@np_operators",)],
                          what="a @ b -> np.matmul(a, b), np.eye(n) -> np.identity(n) everywhere"))
 
-for _i in [1, 2, 3, 4, 5, 6, 7, 8, 10, 11, 12, 13, 14, 15, 16, 17, 18, 19, 20]:
+for _i in [1, 2, 3, 4, 5, 6, 7, 8, 9, 10, 11, 12, 13, 14, 15, 16, 17, 18, 19, 20]:
     VARIANTS.append(dict(id="swap-branches-c%02d" % _i, prop="C%02d" % _i, expect="silent", rule=None, edits=[("@swap_branches",)],
                          what="every if / else written with the negated test and the branches swapped"))
     VARIANTS.append(dict(id="name-conditions-c%02d" % _i, prop="C%02d" % _i, expect="silent", rule=None, edits=[("@name_conditions",)],
@@ -1511,7 +1511,7 @@ V("r9-c16-undirected-combinations", "C16", "silent", UT, _C16_UE, "    return so
 V("r9-c16-weights-product", "C16", "silent", UT, _C16_EW, "    return {(i, j): W[i, j] for (i, j) in itertools.product(range(len(W)), repeat=2) if W[i, j] != 0}\n", what="edge weights as a dict comprehension over all ordered pairs")
 V("r9-c16-weights-product-transposed", "C16", "fire", UT, _C16_EW, "    return {(i, j): W[j, i] for (i, j) in itertools.product(range(len(W)), repeat=2) if W[i, j] != 0}\n", rule="PW.table", what="dict comprehension reading the transposed entry")
 
-for _i in [1, 2, 3, 4, 5, 6, 7, 8, 10, 11, 12, 13, 14, 15, 16, 17, 18, 19, 20]:
+for _i in [1, 2, 3, 4, 5, 6, 7, 8, 9, 10, 11, 12, 13, 14, 15, 16, 17, 18, 19, 20]:
     VARIANTS.append(dict(id="private-module-c%02d" % _i, prop="C%02d" % _i, expect="silent", rule=None, edits=[("@private_module",)],
                          what="the small graph helpers of utils moved into a private module and imported back under their names"))
 
@@ -1589,58 +1589,96 @@ V("r10-c15-closure-squaring-unguarded", "C15", "fire", UT, _TC_OLD, _tc_squaring
 V("r10-c15-closure-squaring-half", "C15", "fire", UT, _TC_OLD, _tc_squaring("int(np.ceil(np.log2(p))) - 1 if p > 1 else 0"), rule="CLOSURE.rounds", what="one round dropped")
 
 # ---- the small re-spellings of refactoring round 6 applied to the whole tree, against every check
-for _i in (1, 2, 3, 4, 5, 6, 7, 8, 10, 11, 12, 13, 14, 15, 16, 17, 18, 19, 20):
+for _i in (1, 2, 3, 4, 5, 6, 7, 8, 9, 10, 11, 12, 13, 14, 15, 16, 17, 18, 19, 20):
     VARIANTS.append(dict(id="small-idioms-c%02d" % _i, prop="C%02d" % _i, expect="silent", rule=None, edits=[("@small_idioms",)],
                          what="np.where(m)[0] -> np.flatnonzero(m), X[a, :] -> X[a], x ** 0.5 -> pow(x, 0.5), len(pa(...)) > 0 -> pa(...) everywhere"))
-for _i in (1, 2, 3, 4, 5, 6, 7, 8, 10, 11, 12, 13, 14, 15, 16, 17, 18, 19, 20):
+for _i in (1, 2, 3, 4, 5, 6, 7, 8, 9, 10, 11, 12, 13, 14, 15, 16, 17, 18, 19, 20):
     VARIANTS.append(dict(id="flip-comparisons-c%02d" % _i, prop="C%02d" % _i, expect="silent", rule=None, edits=[("@flip_comparisons",)],
                          what="every ordered comparison with its operands swapped (a < b -> b > a)"))
     VARIANTS.append(dict(id="else-after-exit-c%02d" % _i, prop="C%02d" % _i, expect="silent", rule=None, edits=[("@else_after_exit",)],
                          what="`else` after return / raise / continue / break turned into straight-line code, everywhere"))
-for _i in (1, 2, 3, 4, 5, 6, 7, 8, 10, 11, 12, 13, 14, 15, 16, 17, 18, 19, 20):
+for _i in (1, 2, 3, 4, 5, 6, 7, 8, 9, 10, 11, 12, 13, 14, 15, 16, 17, 18, 19, 20):
     VARIANTS.append(dict(id="comp-to-loop-c%02d" % _i, prop="C%02d" % _i, expect="undecided", rule=None, edits=[("@comp_to_loop",)],
                          what="every `name = [elt for t in it if c]` statement written as a loop with append, dict(generator) as a dict comprehension: accepted or undecided, never an alarm"))
-for _i in (1, 2, 3, 4, 5, 6, 7, 8, 10, 11, 12, 13, 14, 15, 16, 17, 18, 19, 20):
+for _i in (1, 2, 3, 4, 5, 6, 7, 8, 9, 10, 11, 12, 13, 14, 15, 16, 17, 18, 19, 20):
     VARIANTS.append(dict(id="logic-spellings-c%02d" % _i, prop="C%02d" % _i, expect="silent", rule=None, edits=[("@logic_spellings",)],
                          what="De Morgan on every two-way and / or test, `is not` / `not in` / `!=` as `not ... is / in / ==`, everywhere"))
-for _i in (1, 2, 3, 4, 5, 6, 7, 8, 10, 11, 12, 13, 14, 15, 16, 17, 18, 19, 20):
+for _i in (1, 2, 3, 4, 5, 6, 7, 8, 9, 10, 11, 12, 13, 14, 15, 16, 17, 18, 19, 20):
     VARIANTS.append(dict(id="local-aliases-c%02d" % _i, prop="C%02d" % _i, expect="undecided", rule=None, edits=[("@local_aliases",)],
                          what="read-only attributes of self read once into locals in every method, len(M) -> M.shape[0] for matrix parameters, zeros_like(X) -> zeros(X.shape, dtype=X.dtype): accepted or undecided, never an alarm"))
-for _i in (1, 2, 3, 4, 5, 6, 7, 8, 10, 11, 12, 13, 14, 15, 16, 17, 18, 19, 20):
+for _i in (1, 2, 3, 4, 5, 6, 7, 8, 9, 10, 11, 12, 13, 14, 15, 16, 17, 18, 19, 20):
     VARIANTS.append(dict(id="method-spellings-c%02d" % _i, prop="C%02d" % _i, expect="undecided", rule=None, edits=[("@method_spellings",)],
                          what="M.copy() -> np.copy(M), x.sum(axis=0) -> x.sum(0), set algebra on node sets as .intersection / .union / .difference: accepted or undecided, never an alarm"))
-for _i in (1, 2, 3, 4, 5, 6, 7, 8, 10, 11, 12, 13, 14, 15, 16, 17, 18, 19, 20):
+for _i in (1, 2, 3, 4, 5, 6, 7, 8, 9, 10, 11, 12, 13, 14, 15, 16, 17, 18, 19, 20):
     VARIANTS.append(dict(id="statement-spellings-c%02d" % _i, prop="C%02d" % _i, expect="undecided", rule=None, edits=[("@statement_spellings",)],
                          what="i += 1 -> i = i + 1, returned expressions and nested call arguments through temporaries, chained comparisons split: accepted or undecided, never an alarm"))
-for _i in (1, 2, 3, 4, 5, 6, 7, 8, 10, 11, 12, 13, 14, 15, 16, 17, 18, 19, 20):
+for _i in (1, 2, 3, 4, 5, 6, 7, 8, 9, 10, 11, 12, 13, 14, 15, 16, 17, 18, 19, 20):
     VARIANTS.append(dict(id="loop-spellings-c%02d" % _i, prop="C%02d" % _i, expect="undecided", rule=None, edits=[("@loop_spellings",)],
                          what="for-range loops as counting while loops, loops over list-valued locals as index loops: accepted or undecided, never an alarm"))
-for _i in (1, 2, 3, 4, 5, 6, 7, 8, 10, 11, 12, 13, 14, 15, 16, 17, 18, 19, 20):
+for _i in (1, 2, 3, 4, 5, 6, 7, 8, 9, 10, 11, 12, 13, 14, 15, 16, 17, 18, 19, 20):
     VARIANTS.append(dict(id="import-styles-c%02d" % _i, prop="C%02d" % _i, expect="undecided", rule=None, edits=[("@import_styles",)],
                          what="every non-numpy import written the other way (from-import <-> module import with attribute access): accepted or undecided, never an alarm"))
-for _i in (1, 2, 3, 4, 5, 6, 7, 8, 10, 11, 12, 13, 14, 15, 16, 17, 18, 19, 20):
+for _i in (1, 2, 3, 4, 5, 6, 7, 8, 9, 10, 11, 12, 13, 14, 15, 16, 17, 18, 19, 20):
     VARIANTS.append(dict(id="np-constructors-c%02d" % _i, prop="C%02d" % _i, expect="undecided", rule=None, edits=[("@np_constructors",)],
                          what="shapes as lists, arange(0, n), logical_and/or/not on comparisons as & | ~, sums of comparisons as count_nonzero: accepted or undecided, never an alarm"))
-for _i in (1, 2, 3, 4, 5, 6, 7, 8, 10, 11, 12, 13, 14, 15, 16, 17, 18, 19, 20):
+for _i in (1, 2, 3, 4, 5, 6, 7, 8, 9, 10, 11, 12, 13, 14, 15, 16, 17, 18, 19, 20):
     VARIANTS.append(dict(id="literal-spellings-c%02d" % _i, prop="C%02d" % _i, expect="undecided", rule=None, edits=[("@literal_spellings",)],
                          what="[] -> list(), {} -> dict(), set([a, b]) -> {a, b}, sorted(x) -> sorted(list(x)), raise messages re-worded: accepted or undecided, never an alarm"))
-for _i in (1, 2, 3, 4, 5, 6, 7, 8, 10, 11, 12, 13, 14, 15, 16, 17, 18, 19, 20):
+for _i in (1, 2, 3, 4, 5, 6, 7, 8, 9, 10, 11, 12, 13, 14, 15, 16, 17, 18, 19, 20):
     VARIANTS.append(dict(id="arith-spellings-c%02d" % _i, prop="C%02d" % _i, expect="undecided", rule=None, edits=[("@arith_spellings",)],
                          what="constant operands of + and * on the other side, x / 2 -> x * 0.5, x ** 2 -> x * x, x[0:n] -> x[:n]: accepted or undecided, never an alarm"))
-for _i in (1, 2, 3, 4, 5, 6, 7, 8, 10, 11, 12, 13, 14, 15, 16, 17, 18, 19, 20):
+for _i in (1, 2, 3, 4, 5, 6, 7, 8, 9, 10, 11, 12, 13, 14, 15, 16, 17, 18, 19, 20):
     VARIANTS.append(dict(id="all-spellings-c%02d" % _i, prop="C%02d" % _i, expect="undecided", rule=None,
                          edits=[("@small_idioms",), ("@flip_comparisons",), ("@logic_spellings",), ("@local_aliases",), ("@method_spellings",), ("@statement_spellings",),
                                 ("@np_constructors",), ("@literal_spellings",), ("@arith_spellings",), ("@import_styles",)],
                          what="ten of the spelling transforms applied together: accepted or undecided, never an alarm"))
-for _i in (1, 2, 3, 4, 5, 6, 7, 8, 10, 11, 12, 13, 14, 15, 16, 17, 18, 19, 20):
+for _i in (1, 2, 3, 4, 5, 6, 7, 8, 9, 10, 11, 12, 13, 14, 15, 16, 17, 18, 19, 20):
     VARIANTS.append(dict(id="defensive-copies-c%02d" % _i, prop="C%02d" % _i, expect="undecided", rule=None, edits=[("@defensive_copies",)],
                          what="`A = A.copy()` at the top of every utils function that only reads its matrix parameter: accepted or undecided, never an alarm"))
-for _i in (1, 2, 3, 4, 5, 6, 7, 8, 10, 11, 12, 13, 14, 15, 16, 17, 18, 19, 20):
+for _i in (1, 2, 3, 4, 5, 6, 7, 8, 9, 10, 11, 12, 13, 14, 15, 16, 17, 18, 19, 20):
     VARIANTS.append(dict(id="local-snapshots-c%02d" % _i, prop="C%02d" % _i, expect="undecided", rule=None, edits=[("@local_snapshots",)],
                          what="`A_ = A.copy()` and A_ read wherever A stood, in every utils function that only reads its matrix parameter: accepted or undecided, never an alarm"))
-for _i in (1, 2, 3, 4, 5, 6, 7, 8, 10, 11, 12, 13, 14, 15, 16, 17, 18, 19, 20):
+for _i in (1, 2, 3, 4, 5, 6, 7, 8, 9, 10, 11, 12, 13, 14, 15, 16, 17, 18, 19, 20):
     VARIANTS.append(dict(id="reorder-defs-c%02d" % _i, prop="C%02d" % _i, expect="silent", rule=None, edits=[("@reorder_defs",)],
                          what="module-level functions and methods defined in another order: nothing any check reads depends on it"))
-for _i in (1, 2, 3, 4, 5, 6, 7, 8, 10, 11, 12, 13, 14, 15, 16, 17, 18, 19, 20):
+for _i in (1, 2, 3, 4, 5, 6, 7, 8, 9, 10, 11, 12, 13, 14, 15, 16, 17, 18, 19, 20):
     VARIANTS.append(dict(id="validate-inputs-c%02d" % _i, prop="C%02d" % _i, expect="undecided", rule=None, edits=[("@validate_inputs",)],
                          what="a squareness check raising ValueError at the top of every utils function with a matrix parameter: accepted or undecided, never an alarm"))
+
+# ------------------------------------------------------------------------------- C09 (consistent-extension search, Meek orientation)
+_SINK = "            sink = len(ch(i, P)) == 0\n"
+_ADJN = "            adj_neighbors = np.all([adj_i - {y} <= adj(y, P) for y in n_i])\n"
+_HCE = "    try:\n        pdag_to_dag(pdag)\n        return True\n    except ValueError:\n        return False\n"
+V("c09-sink-parents", "C09", "fire", UT, _SINK, "            sink = len(pa(i, P)) == 0\n", rule="SINK.childless", what="a source is removed instead of a sink")
+V("c09-sink-original-graph", "C09", "fire", UT, _SINK, "            sink = len(ch(i, oP)) == 0\n", rule="SINK.childless", what="children looked up in the original graph under local indices")
+V("c09-sink-neighbours-only", "C09", "fire", UT, _ADJN, "            adj_neighbors = np.all([n_i - {y} <= adj(y, P) for y in n_i])\n", rule="SINK.neighbours", what="parents of the sink need not be adjacent to its neighbours: new v-structures")
+V("c09-sink-y-not-removed", "C09", "fire", UT, _ADJN, "            adj_neighbors = np.all([adj_i <= adj(y, P) for y in n_i])\n", rule="SINK.neighbours", what="y is never adjacent to itself: no node with a neighbour is ever admissible")
+V("c09-sink-proper-subset", "C09", "fire", UT, _ADJN, "            adj_neighbors = np.all([adj_i - {y} < adj(y, P) for y in n_i])\n", rule="SINK.neighbours", what="proper subset")
+V("c09-sink-any", "C09", "fire", UT, _ADJN, "            adj_neighbors = np.any([adj_i - {y} <= adj(y, P) for y in n_i])\n", rule="SINK.neighbours", what="one good neighbour suffices (and a node without neighbours is never admissible)")
+V("c09-sink-all-generator", "C09", "fire", UT, _ADJN, "            adj_neighbors = np.all(adj_i - {y} <= adj(y, P) for y in n_i)\n", rule=None, what="np.all of a generator is always True")
+V("c09-sink-over-adjacent", "C09", "fire", UT, _ADJN, "            adj_neighbors = np.all([adj_i - {y} <= adj(y, P) for y in adj_i])\n", rule="SINK.neighbours", what="condition demanded of parents as well")
+V("c09-sink-superset", "C09", "fire", UT, _ADJN, "            adj_neighbors = np.all([adj_i - {y} >= adj(y, P) for y in n_i])\n", rule="SINK.neighbours", what="inclusion reversed")
+V("c09-sink-adj-of-i", "C09", "fire", UT, _ADJN, "            adj_neighbors = np.all([adj_i - {y} <= adj(i, P) for y in n_i])\n", rule="SINK.neighbours", what="compares adj(i) with itself: always true")
+V("c09-sink-or", "C09", "fire", UT, "            found = sink and adj_neighbors\n", "            found = sink or adj_neighbors\n", rule="SINK.both", what="either condition suffices")
+V("c09-sink-only-childless", "C09", "fire", UT, "            found = sink and adj_neighbors\n", "            found = sink\n", rule="SINK.neighbours", what="condition 2 dropped")
+V("c09-scan-from-one", "C09", "fire", UT, "        found = False\n        i = 0\n", "        found = False\n        i = 1\n", rule="SCAN.complete", what="node 0 of the remaining graph is never tried")
+V("c09-scan-one-short", "C09", "fire", UT, "        while not found and i < len(P):\n", "        while not found and i < len(P) - 1:\n", rule="SCAN.complete", what="the last remaining node is never tried")
+V("c09-raise-needs-more", "C09", "fire", UT, "        if not found:\n            raise ValueError(\"PDAG %s does not admit consistent extension\" % oP)", "        if not found and len(P) > 2:\n            raise ValueError(\"PDAG %s does not admit consistent extension\" % oP)", rule="RAISE.iff", what="no error when two nodes are left")
+V("c09-hce-catches-all", "C09", "fire", UT, _HCE, _HCE.replace("except ValueError", "except Exception"), rule="HCE.table", what="any failure is reported as 'no extension'")
+V("c09-hce-swapped", "C09", "fire", UT, _HCE, _HCE.replace("return True", "return None").replace("return False", "return True").replace("return None", "return False"), rule="HCE.table", what="answers inverted")
+V("c09-hce-handler-true", "C09", "fire", UT, _HCE, _HCE.replace("return False", "return True"), rule="HCE.table", what="always True")
+V("c09-hce-unguarded", "C09", "fire", UT, _HCE, "    pdag_to_dag(pdag)\n    return True\n", rule="HCE.table", what="raises instead of answering False")
+V("c09-rule1-children", "C09", "fire", UT, "    if len(pa(i, A)) > 0 and not pa(i, A) <= adj(j, A):", "    if len(ch(i, A)) > 0 and not ch(i, A) <= adj(j, A):", rule="RULES.rule_1", what="rule 1 looks at children")
+V("c09-rule2-reversed", "C09", "fire", UT, "    return len(ch(i, A) & pa(j, A)) > 0", "    return len(pa(i, A) & ch(j, A)) > 0", rule="RULES.rule_2", what="rule 2 orients against the path")
+V("c09-meek-one-pass", "C09", "fire", UT, "    oriented_edges = True\n    while oriented_edges:\n        oriented_edges = False\n        for (i, j) in undirected_edges(P):", "    oriented_edges = True\n    if oriented_edges:\n        oriented_edges = False\n        for (i, j) in undirected_edges(P):", rule="ORIENT.fixpoint", what="a single pass")
+V("c09-silent-sink-not", "C09", "silent", UT, _SINK, "            sink = not ch(i, P)\n", what="emptiness by truthiness")
+V("c09-silent-sink-eq-set", "C09", "silent", UT, _SINK, "            sink = ch(i, P) == set()\n", what="emptiness by comparison with set()")
+V("c09-silent-issubset", "C09", "silent", UT, _ADJN, "            adj_neighbors = all([(adj_i - {y}).issubset(adj(y, P)) for y in n_i])\n", what="issubset / builtin all")
+V("c09-silent-union-y", "C09", "silent", UT, _ADJN, "            adj_neighbors = np.all([adj_i <= adj(y, P) | {y} for y in n_i])\n", what="y added on the right instead of removed on the left")
+V("c09-silent-gen-all", "C09", "silent", UT, _ADJN, "            adj_neighbors = all(adj_i - {y} <= adj(y, P) for y in n_i)\n", what="builtin all of a generator")
+V("c09-silent-sorted-domain", "C09", "silent", UT, _ADJN, "            adj_neighbors = np.all([adj_i - {y} <= adj(y, P) for y in sorted(n_i)])\n", what="iteration order of the neighbours")
+V("c09-silent-inline", "C09", "silent", UT, "            found = sink and adj_neighbors\n", "            found = adj_neighbors and sink\n", what="conjuncts swapped")
+V("c09-silent-difference", "C09", "silent", UT, _ADJN, "            adj_neighbors = np.all([len((adj_i - {y}) - adj(y, P)) == 0 for y in n_i])\n", what="inclusion as an empty difference")
+V("c09-silent-hce-else", "C09", "silent", UT, _HCE, "    try:\n        pdag_to_dag(pdag)\n    except ValueError:\n        return False\n    return True\n", what="success returned after the try")
+V("c09-silent-hce-else-clause", "C09", "silent", UT, _HCE, "    try:\n        pdag_to_dag(pdag)\n    except ValueError:\n        return False\n    else:\n        return True\n", what="success returned in the else clause")
+V("c09-silent-raise-message", "C09", "silent", UT, "            raise ValueError(\"PDAG %s does not admit consistent extension\" % oP)", "            raise ValueError(\"no consistent extension for\\n%s\" % (oP,))", what="message text")
